@@ -79,7 +79,7 @@ def do_read(r, op):
     if op.startswith('read_sensor:'):
         k = op.split(':')[1]
         ss = inv.sensors()
-        sid = ss[0].id_ if k == 'first' else ss[-1].id_ if k == 'last' else 'no_such_sensor'
+        sid = ss[0].id_ if k == 'first' else ss[-1].id_ if k == 'last' else k if k.startswith('modbus') else 'no_such_sensor'
         return r.call(inv.read_sensor, sid)
     if op.startswith('read_setting:'):
         k = op.split(':')[1]
@@ -148,6 +148,38 @@ def job_reads(j):
         lst[0]['n'] = len(lst)
         res.append(lst[0])
     return n, edges, len(seen), res, len(oc)
+
+
+RAW_REGS = (0, 1, 0x0560, 1376 + 1, 1793, 29999, 30000, 30001, 30100, 35100, 40328, 45356, 47000, 47547, 65535)
+
+
+def job_raw_ids(cfg):
+    """Monitoring calls with caller-chosen raw register ids ('modbus-<n>' / 'modbus_<n>') over the whole register range:
+    whatever path such an id takes inside the family class, only read requests reach the inverter."""
+    out = {}
+    n = 0
+    for when in ('fresh', 'after-device-info'):
+        r = prepare(cfg)
+        if when != 'fresh':
+            r.call(r.inv.read_device_info)
+        for reg in RAW_REGS:
+            for sep in '-_':
+                for call in ('read_setting', 'read_sensor'):
+                    l0 = len(r.dev.log)
+                    res = r.call(getattr(r.inv, call), f'modbus{sep}{reg}')
+                    n += 1
+                    w = [q for q in r.dev.log[l0:] if q.get('fn') not in (3, 'read')]
+                    if w:
+                        key = f"read-only/{cfg['family']}/{call}/raw-register-id"
+                        out.setdefault(key, []).append(dict(
+                            key=key, clause='monitoring calls transmit only read requests',
+                            replay=dict(part='raw', cfg=cfg),
+                            detail=dict(call=f"{call}('modbus{sep}{reg}')", when=when, write_seen=str(w[0])[:100], outcome=str(res)[:60])))
+    res = []
+    for key, lst in out.items():
+        lst[0]['n'] = len(lst)
+        res.append(lst[0])
+    return n, res
 
 
 def run_connect_fault(cfg, setter, reader, ka, k):
@@ -435,6 +467,11 @@ def run(tier, seed, rep):
     for n, res in pmap(job_connect_faults, [(c, ka) for c in (cf_cfgs if tier == 'thorough' else cf_cfgs[:3]) for ka in (False, True)]):
         ncf += n
         rep.add_many(res)
+    nraw = 0
+    for n, res in pmap(job_raw_ids, [c for c in cfgs if c['eco'] in ('off', 'charge') and c['refused'] == ()][:6] +
+                       [c for c in cfgs if c['family'] == 'ES'][:2]):
+        nraw += n
+        rep.add_many(res)
     nrem = 0
     rcfgs = [c for c in cfgs if c['family'] != 'ES' and c['eco'] in ('off', 'charge')]
     for n, res in pmap(job_removed, rcfgs if tier == 'thorough' else rcfgs[:4]):
@@ -463,7 +500,7 @@ def run(tier, seed, rep):
                     dict(part='vacuity', cfg=c), dict(call=name))
     cov = dict(api_session_histories=_api['histories'], api_session_states=_api['states'],
                states=states, transitions=max(edges, 1), executions=total + ne + ns + ncf, traces_validated_against_impl=total + ne + ns + ncf,
-               connect_fault_runs=ncf, unlisted_id_write_attempts=nrem, invalid_calls_after_legal_setters=nsa,
+               connect_fault_runs=ncf, raw_register_id_calls=nraw, unlisted_id_write_attempts=nrem, invalid_calls_after_legal_setters=nsa,
                read_sequences=total, entry_point_runs=ne, setter_calls=ns, distinct_read_outcomes=ocs, exhaustive=True,
                bound=f'BFS over read-only call sequences of depth <= {depth} ({len(READ_OPS)} calls) with state de-duplication x '
                      f'{len(cfgs)} configurations (families, capability fallbacks, eco-mode register contents); connect() and '
@@ -499,6 +536,9 @@ def replay(r):
     if r['part'] == 'setter-after':
         n, res = job_setters_after(cfg)
         return dict(calls=n, violations=[(v['key'], str(v['detail'])[:200]) for v in res])
+    if r['part'] == 'raw':
+        n, res = job_raw_ids(cfg)
+        return dict(calls=n, violations=[(v['key'], v['detail']['call']) for v in res])
     if r['part'] == 'removed':
         n, res = job_removed(cfg)
         return dict(attempts=n, violations=[(v['key'], v['detail']['setting']) for v in res])
